@@ -124,14 +124,18 @@ TEXT = {
     "C01": dict(
         design_ref="§7 C01",
         technique="Lean 4 proof by induction over the turns of throttle_collect (every clock reading, recv outcome, filter verdict as inputs): conservation, non-empty batches, filter bypass; differential execution of the real action worker in real time plus a schedule-independent oracle",
-        text=("Theorems: collect_conserve (the returned batch is exactly the set so far plus the accepted events received in this call, in receive order, and is non-empty), turn_next_set / "
+        text=("Theorems: worker_conserve (WHOLE RUN of the worker loop, any number of calls: the batches handed to the handler, concatenated, plus the accepted events of the unfinished "
+              "last call are exactly the accepted events in receive order — every accepted event in exactly one batch), worker_nonempty, worker_only_accepted, turn_rejected; "
+              "collect_conserve (the returned batch is exactly the set so far plus the accepted events received in this call, in receive order, and is non-empty), turn_next_set / "
               "turn_batch (per turn), turn_filtered (only non-urgent non-empty events reach the filter; every error comes from an erroring verdict and its event is not kept), "
               "classify_spec. The driver's zero-latency run goes through the same `turn` function and must reproduce the real worker's batches away from window edges."),
         note=COMMON_NOTE + "Modelled: the priority channel, tokio timeout, std Instant (readings are inputs). Real-time runs."),
     "C02": dict(
         design_ref="§7 C02",
         technique="Lean 4 proof of the debounce lower bound for every turn (any throttle incl. 0 and changing, any monotone clock), urgent bypass and flush; differential execution in real time with a strict microsecond lower-bound oracle",
-        text=("Theorems: turn_lower_bound (a batch without urgent events leaves no earlier than last + throttle for the throttle value read in that turn, and last is the reading taken after "
+        text=("Theorems: worker_bound / collect_bound (WHOLE RUN: every batch without urgent events left in a turn whose throttle reading had elapsed since the clock reading taken "
+              "right after its first event was received), turn_urgent (an urgent event returns the pending set plus itself in its own turn, unfiltered), turn_window_over (no "
+              "starvation: once the top-of-loop reading reaches last + throttle the set is returned whatever is queued), turn_rejected; turn_lower_bound (a batch without urgent events leaves no earlier than last + throttle for the throttle value read in that turn, and last is the reading taken after "
               "its first event), turn_batch (an urgent event returns the batch in its own turn), turn_filtered (urgent events never reach the filter), collect_conserve (everything accepted "
               "in the window is in that batch). Bounded delay after the window under rejected traffic is stated for the eager scheduler; its numeric value on a real scheduler is "
               "reported (worst lateness) but not proved."),
